@@ -30,11 +30,29 @@ def run(ctx):
     r = vlib.tlc_expect_violation("Watcher6", "Watcher6_neg.cfg", workers=2)
     ctx.add_tlc("negative control: id bumped before the swap (must fail NewAfterReport)", r, negative=True)
     sim = 2500 if thorough else 500
-    suite = [("W3", 4, None, 6000), ("W3", 7, sim, None), ("W6", 6, sim, None), ("W5", 6, sim // 2, None), ("W9", 5, sim // 2, None)]
+    suite = [("W3", 4, None, 6000), ("W3", 7, sim, None), ("W4", 5, None, 8000), ("W4", 7, sim, None), ("W6", 6, sim, None),
+             ("W5", 6, sim // 2, None), ("W9", 5, sim // 2, None)]
     if thorough:
         suite += [("W3", 5, None, 40000)]
     hotcommon.run_suite(ctx, suite, hotcommon.classify_other("C06"))
-    ctx.cov["rule"] = ("histories of worlds W3/W5/W6/W9 incl. un-notified edits and notifications of unknown or unrelated entries; "
+    # a polling reader against the reloader: the id and the value change together (guards log both)
+    import os
+    import checks.c07 as c07
+    for mode in ("local", "static"):
+        out = os.path.join(vlib.WORK, f"c06-poll-{mode}-{os.getpid()}.ndjson")
+        rep = worlds.parse_report(vlib.run_bin("amv", ["c07-stress", out, ctx.seed, 120 if thorough else 60, mode], timeout=300))
+        verdict, tr, detail = vlib.trace_check("Trace_RwGuard", f"Trace_RwGuard_{mode}.cfg", out, name=f"c06-poll-{mode}")
+        if verdict == "error":
+            raise vlib.ToolError(f"trace validation failed to run: {detail}")
+        if verdict != "accepted" or rep["torn"]:
+            keep = out + ".rejected"
+            os.replace(out, keep)
+            ctx.violation(f"C06/poll:{mode}", "a reader saw the reload id and the value out of step (the id is not published together with the value)",
+                          dict(mode=mode, trace_file=keep, tlc=detail))
+        else:
+            ctx.cov["traces_validated_against_impl"] += 1
+            os.remove(out)
+    ctx.cov["rule"] = ("histories of worlds W3/W4/W5/W6/W9 incl. un-notified edits and notifications of unknown or unrelated entries; "
                        "distinct by content; non-trivial = some reload happened or some call failed")
     ctx.assumptions += ["reload ids are read through the Debug form of ReloadId (opaque type)"]
 
